@@ -23,6 +23,10 @@ for name in sorted(os.listdir(os.path.join(ROOT, "seeded"))):
     anyc = "**caught**" in res
     caught += 1 if anyc else 0
     missed += 0 if anyc else 1
+    if meta.get("status") == "superseded":
+        res = "(superseded: " + "no longer breaks the property since fix faa9391, see meta.json" + ")"
+    elif meta.get("note") and not ok:
+        res += " — see note in meta.json"
     out.append("| %s | %s | %s | %s |" % (name, prim, meta.get("needs_to_manifest", "").replace("|", "/"), res))
 out.append("")
 out.append("%d seeded changes; %d caught by at least one listed check, %d not caught." % (caught + missed, caught, missed))
